@@ -1095,6 +1095,11 @@ HLPread(accrec_t *access_rec, int32 length, void *datap)
     if (access_rec->posn + length > info->length)
         length = info->length - access_rec->posn;
 
+    /* Nothing (left) to read: positioned at or beyond the end of the element.
+       There may be no block (table) to look at for that position. */
+    if (length <= 0)
+        HGOTO_DONE(0);
+
     /* search for linked block to start reading from */
     if (relative_posn < info->first_length) { /* first block */
         block_idx      = 0;
